@@ -1,4 +1,5 @@
 import IofloModel.Model.HttpLex
+import IofloModel.Model.Sse
 /-
 Model of the HTTP message parsers: `httping.Parsent.parseMessage / parse / close / makeParser`,
 `serving.Requestant.parseHead / parseBody / checkPersisted`,
@@ -18,8 +19,11 @@ either needs bytes (`Res.stop`, the `yield None` that reaches the caller of `par
 * The `if self.closed …: raise PrematureClosure` tests sit in the `while True:` loops that drive the
   sub-generators, so they run when such a loop is entered and every time `parse()` resumes it
   (`resumeCheck`), not once per header line.
-* A response with `Content-Type: text/event-stream` hands its body to an `EventSource`
-  (`Model/Sse.lean`); that coupling is not modelled here: `gen = .unmodelled`, explicitly.
+* A response with `Content-Type: text/event-stream` hands its body to an `EventSource`: the model of
+  `Model/Sse.lean` (`Core.es`), whose buffer `.raw` IS `Respondent.body` (the same bytearray), parsed after
+  every data chunk / every pass of a body read until close; `.events` is the deque the event sources
+  share, `.retry` / `.leid` follow the event source.  As repaired by
+  fixes/D32f-respondent-evented-per-message.patch `evented` is decided per response.
 * `urlsplit(self.url)` / `.port` of the Requestant are standard library; `urlCheck` reproduces when
   they raise `ValueError` (bad port) and declares targets whose netloc has brackets or non-ASCII
   characters outside the model.  The split results (`path`, `query`, …) are not modelled.
@@ -72,6 +76,11 @@ structure Core where
   url : Bytes := []
   status : Option Nat := none
   reason : Option Bytes := none
+  evented : Option Bool := none            -- `Respondent.evented`
+  es : Option Sse.St := none              -- `Respondent.eventSource` (its `.raw` is `body`)
+  events : List Sse.Event := []           -- `Respondent.events`, shared with the event sources
+  retry : Int := 100                      -- `Respondent.retry` (class default `Retry = 100`)
+  leid : Option Bytes := none             -- `Respondent.leid`
   gen : Gen := .fresh
   escaped : Option Exc := none
   stopIter : Bool := false                -- a `parse()` on the dead generator raised StopIteration
@@ -162,15 +171,16 @@ def reqPersisted (version : Option (Nat × Nat)) (h : Hdrs) (chunked : Bool) (le
     if connHas h sConnection sKeepAlive then some true else some false
   else none
 
-/-- `Respondent.checkPersisted` (not evented) -/
-def rspPersisted (version : Option (Nat × Nat)) (h : Hdrs) (chunked : Bool) (length : Option Nat) :
-    Option Bool :=
+/-- `Respondent.checkPersisted` -/
+def rspPersisted (version : Option (Nat × Nat)) (h : Hdrs) (chunked : Bool) (length : Option Nat)
+    (evented : Bool := false) : Option Bool :=
   if version = some (1, 1) then
     if connHas h sConnection sClose then some false
     else if ¬ chunked ∧ length = none then some false
     else some true
   else if version = some (1, 0) then
-    if (hget h sKeepAlive).isSome then some true
+    if evented then some true
+    else if (hget h sKeepAlive).isSome then some true
     else if connHas h sConnection sKeepAlive then some true
     else if connHas h sProxyConnection sKeepAlive then some true
     else some false
@@ -295,12 +305,18 @@ def rspLen (c : Core) (H : Hdrs) : Option Nat :=
 
 /-- the fields `Respondent.parseHead` assigns after the leader (before `checkPersisted`) -/
 def rspHeadCore (c : Core) (H : Hdrs) : Core :=
-  { c with headers := some H, chunked := some (isChunked H), length := rspLen c H }
+  { c with headers := some H, chunked := some (isChunked H), length := rspLen c H, evented := some (isEvented H) }
+
+/-- `self.eventSource = EventSource(raw=self.body, events=self.events, …)`: a new event source on the
+shared deque -/
+def newEs (c : Core) : Core :=
+  { c with es := some { raw := [], skip := false, ev := { events := c.events } } }
 
 /-- rest of `Respondent.parseHead` after the leader -/
 def rspHeadDone (c : Core) (h : Hdrs) (buf : Bytes) : Res :=
   let c := rspHeadCore c h
-  if isEvented h then .stop { c with gen := .unmodelled } buf
+  if isEvented h then
+    startBody (newEs { c with persisted := rspPersisted c.version h (isChunked h) c.length true }) buf
   else startBody { c with persisted := rspPersisted c.version h (isChunked h) c.length } buf
 
 /-- rest of `parseHead` after the leader, for either parser -/
@@ -313,10 +329,48 @@ def headDone (c : Core) (H : Hdrs) (buf : Bytes) : Res :=
 def enterLeader (c : Core) (g : Gen) (buf : Bytes) : Res :=
   if closedCond c buf then raise c .prematureClosure buf else .cont { c with gen := g } buf
 
-/-- a chunk is complete: `self.parms.update(parms)`, `self.body.extend(chunk)`, the closed test -/
+/-- does this message hand its body to an event source -/
+def usesEs (c : Core) : Bool :=
+  match c.kind with
+  | .req => false
+  | .rsp => c.evented == some true
+
+inductive EsOut | ok | exc (e : Exc) | outside
+  deriving DecidableEq, Repr
+
+/-- `self.eventSource.parse()` on the body so far, then `.retry` / `.leid` follow the event source
+(not when `parse()` raised) -/
+def evParse (c : Core) : Core × EsOut :=
+  match c.es with
+  | none => (c, .ok)
+  | some st =>
+    let st' := Sse.feed c.max { st with raw := c.body } []
+    let c' := { c with body := st'.raw, es := some st', events := st'.ev.events }
+    -- an event source whose generator died is not kept: the response fails here, and (fixes/D32f) the
+    -- next response decides anew whether it is evented and then gets a new event source
+    let cx := { c' with es := none }
+    match Sse.raised st st' with
+    | .err .lineTooLong => (cx, .exc .lineTooLong)
+    | .err .unicodeDecode => (cx, .exc .unicodeDecodeError)
+    | .stopIteration => (cx, .exc .runtimeError)
+    | .none =>
+      if st'.ev.status = .unmodelled then (c', .outside)
+      else ({ c' with retry := st'.ev.retry.getD c'.retry,
+                      leid := match st'.ev.leid with | some l => some l | none => c'.leid }, .ok)
+
+/-- the event-stream part of a body step, then the rest `k` of the step -/
+def esStep (c : Core) (buf : Bytes) (k : Core → Res) : Res :=
+  if usesEs c then
+    match evParse c with
+    | (c', .ok) => k c'
+    | (c', .exc e) => if e = .runtimeError then escape c' e buf else raise c' e buf
+    | (c', .outside) => .stop { c' with gen := .unmodelled } buf
+  else k c
+
+/-- a chunk is complete: `self.parms.update(parms)`, `self.body.extend(chunk)`, the events, the closed test -/
 def chunkDone (c : Core) (pm : Parms) (chunk : Bytes) (buf : Bytes) : Res :=
-  let c := { c with parms := updParms c.parms pm, body := c.body ++ chunk }
-  if closedCond c buf then finishBody c buf else .cont { c with gen := .chunkSize } buf
+  esStep { c with parms := updParms c.parms pm, body := c.body ++ chunk } buf (fun c =>
+    if closedCond c buf then finishBody c buf else .cont { c with gen := .chunkSize } buf)
 
 /-- `self.parms = None` / `self.trails = None` at the start of `parseMessage` (repaired tree) -/
 def resetOf {α : Type} (flag : Bool) (old : Option α) : Option α := if flag then none else old
@@ -424,8 +478,8 @@ def stepOn (c : Core) (buf : Bytes) : Res :=
       (if closedCond c buf then raise c .prematureClosure buf else .stop c buf)
     else finishBody { c with body := buf.take n } (buf.drop n)
   | .bodyClose =>
-    let c := { c with body := c.body ++ buf }
-    if c.closed then finishBody c [] else .stop c []
+    esStep { c with body := c.body ++ buf } [] (fun c =>
+      if c.closed then finishBody c [] else .stop c [])
 
 /-- `next(self.parser)` resumed inside a loop that drives a leader or (Respondent) a chunk parser:
 the closed test at the top of that loop -/
@@ -458,7 +512,11 @@ def parse (s : St) : St :=
 def feed (s : St) (b : Bytes) : St := parse { s with msg := s.msg ++ b }
 
 /-- `close()` -/
-def close (s : St) : St := { s with core := { s.core with closed := true } }
+def close (s : St) : St :=
+  { s with core := { s.core with closed := true,
+                                  es := match s.core.kind with
+                                    | .rsp => s.core.es.map Sse.close     -- `Respondent.close` closes its event source
+                                    | .req => s.core.es } }
 
 /-- `makeParser()` -/
 def makeParser (s : St) : St := { s with core := { s.core with gen := .fresh } }
